@@ -10,15 +10,26 @@ With --keep the seed is stored as /verif/seeded/<prop>/<name>/ (patch.diff, demo
 """
 import sys, os, json, subprocess, shutil, tempfile, time
 args = sys.argv[1:]
-sd, k = args[0], args[1]
+kept = None
+if args[0] == '--kept':
+    kept = os.path.normpath(args[1])
+    sd, k = kept, 'kept'
+else:
+    sd, k = args[0], args[1]
 extra = []
 if '--checks' in args:
     extra = args[args.index('--checks') + 1].split(',')
 thorough_on_miss = '--thorough-on-miss' in args
 keep = '--keep' in args
-patch = os.path.join(sd, f'seed_{k}.diff'); demo = os.path.join(sd, f'demo_{k}.py'); metaf = os.path.join(sd, f'meta_{k}.json')
+if kept:
+    patch = os.path.join(sd, 'patch.diff'); demo = os.path.join(sd, 'demo.py'); metaf = os.path.join(sd, 'meta.json')
+else:
+    patch = os.path.join(sd, f'seed_{k}.diff'); demo = os.path.join(sd, f'demo_{k}.py'); metaf = os.path.join(sd, f'meta_{k}.json')
 meta = json.load(open(metaf)) if os.path.exists(metaf) else {}
-prop = meta.get('property') or os.path.basename(os.path.normpath(sd))
+prop = meta.get('breaks_property') or meta.get('property') or os.path.basename(os.path.normpath(sd))
+if kept:
+    keep = True
+    extra = sorted({c_.split(':')[0] for c_ in meta.get('detection', {})} - {prop}) + extra
 PY = '/venv/bin/python'
 wt = tempfile.mkdtemp(prefix='seedchk_', dir='/tmp'); os.rmdir(wt)
 subprocess.run(['git', '-C', '/repo', 'worktree', 'add', '-q', '--detach', wt, 'HEAD'], check=True)
@@ -60,10 +71,11 @@ try:
                 break
     res['caught_by'] = [k_ for k_, v in res['checks'].items() if v['caught']]
     if keep and res['confirmed']:
-        name = f"{os.path.basename(os.path.normpath(sd))}_{k}"
+        name = os.path.basename(sd) if kept else f"{os.path.basename(os.path.normpath(sd))}_{k}"
         dst = f'/verif/seeded/{prop}/{name}'
         os.makedirs(dst, exist_ok=True)
-        shutil.copyfile(patch, dst + '/patch.diff'); shutil.copyfile(demo, dst + '/demo.py')
+        if not kept:
+            shutil.copyfile(patch, dst + '/patch.diff'); shutil.copyfile(demo, dst + '/demo.py')
         meta.update(breaks_property=prop, confirmation=dict(demo_clean_rc=rc0, demo_patched_rc=rc1, tests=res['tests_tail'], repo_head=res['repo_head'],
                     ran=['demo on clean scratch worktree', 'git apply', 'demo on patched worktree', 'pytest tests (55) on patched worktree',
                          './check <id> with VERIF_REPO=<patched worktree>']), detection=res['checks'], caught_by=res['caught_by'])
